@@ -1076,3 +1076,9 @@ package command
 //@   entry row tty:    [call Stat(os.Stdin) as (info, e) ; call Mode(info) as (m)] when (len(o.arpCacheFile) == 0 || o.arpCacheFile == "-") && e == nil && bitand(m, 2097152) != 0 && ret0 == nil && ret1 == errARPCacheStdin -> exit
 //@   entry row pipe:   [call Stat(os.Stdin) as (info, e) ; call Mode(info) as (m) ; call io.NopCloser(bind_r) as (c)]
 //@                        when (len(o.arpCacheFile) == 0 || o.arpCacheFile == "-") && e == nil && bitand(m, 2097152) == 0 && isptr(r, os.File) && asptr(r, os.File) == os.Stdin && ret0 == c && ret1 == nil -> exit
+
+// capture-filter builders (values of type bpfFilterFunc: tcp.BPFFilter, tcp.SYNACKBPFFilter, icmp.BPFFilter,
+// arp.BPFFilter - each proved to modify nothing in its own contract) only read the range they are given
+//@ func functype command.bpfFilterFunc
+//@   params r
+//@   modifies nothing
